@@ -1039,6 +1039,49 @@ class Interp:
                             self.trunc_decisions.append(d)
                         s.comps[('trdec', sy)] = nloc(n)
 
+    def _fn_table_split(self, fnode, s, fr):
+        lvn = self._lvalue_of_rvalue(fnode)
+        if lvn is None or lvn.get('k') != 'ArraySubscriptExpr':
+            return None
+        snap = s.copy()
+        r = self.ev_list([lvn['base'], lvn['idx']], snap, fr)
+        if len(r) != 1:
+            return None
+        s1, (bv, iv) = r[0]
+        if not (is_ptr(bv) and bv[0] == 'p' and is_int(iv)):
+            return None
+        sy = None
+        if iv[0] == 'l' and iv[1] == 0 and len(iv[2]) == 1 and iv[2][0][1] == 1:
+            sy = iv[2][0][0]
+            rr = s1.sym.get(sy)
+            if rr is None or rr[1] - rr[0] > 15:
+                return None
+            values = list(range(rr[0], rr[1] + 1))
+        else:
+            sv = setof(iv)
+            if sv is None or len(sv) > 16:
+                return None
+            values = sorted(sv)
+        ivl = self._lvalue_of_rvalue(lvn['idx']) if isinstance(lvn.get('idx'), dict) else None
+        out = []
+        for i in values:
+            si = s.copy()
+            if sy is not None:
+                si.sym[sy] = (i, i)
+            elif ivl is not None:
+                ls = self.lv(ivl, si, fr)
+                if len(ls) == 1 and ls[0][1] is not None and ls[0][0] is si:
+                    si.mem[ls[0][1]] = C(i)
+            last = bv[2][-1] if bv[2] and isinstance(bv[2][-1], int) else None
+            if last is None:
+                return None
+            fv = self.load(si, (bv[1], bv[2][:-1] + (last + i,)))
+            if fv is None or fv[0] != 'fn':
+                return None
+            si.note((nloc(fnode), 'table[%d]' % i))
+            out.append((si, fv))
+        return out
+
     def _lookup_partition(self, s, fr, vn, const, op):
         """vn is a load table[x] of a fully known constant table with x one ranged symbol: the sets of values of x for which
         (table[x] op const) holds / does not hold.  Lets a predicate written as a table test refine its argument."""
@@ -1577,7 +1620,18 @@ class Interp:
         # ---- callee not statically known: a plain function pointer whose value the analysis knows
         if not callee.get('m') and n.get('fn') is not None and n['k'] == 'CallExpr':
             out, rest = [], []
+            cands_ = []
             for s, fv in self.ev(n['fn'], st, fr):
+                if fv[0] == 'fn':
+                    cands_.append((s, fv))
+                    continue
+                # a table of functions subscripted with one ranged unknown: one path per value of the index
+                split_ = self._fn_table_split(n['fn'], s, fr)
+                if split_:
+                    cands_ += split_
+                else:
+                    cands_.append((s, fv))
+            for s, fv in cands_:
                 fd = self.prog.functions.get(fv[1]) if fv[0] == 'fn' else None
                 if fd is None:
                     rest.append(s)
@@ -2219,6 +2273,13 @@ class Interp:
                     return r
         pending = list(states)
         seen = {}
+        cond_vars = []
+        if cond is not None:
+            for x_ in walk(cond):
+                if x_.get('k') == 'DeclRefExpr' and not x_.get('glob') and (self.T(x_) or {}).get('k') in ('bool', 'int', 'enum') and len(cond_vars) < 3:
+                    if not any(y_.get('k') in ('CallExpr', 'CXXMemberCallExpr', 'CXXOperatorCallExpr') for y_ in walk(cond)):
+                        cond_vars.append(x_)
+        loopgroup = {}
         summaries = {}          # comps-group -> (widened state, times widened)
         iters = 0
         abs_iters = 0
@@ -2269,9 +2330,33 @@ class Interp:
                     continue
                 abstract = True
                 g = frozenset(s.comps.items())
+                if cond_vars:
+                    # states in which a variable the loop condition reads holds different constants are kept apart: such a
+                    # variable is usually a flag that records how the body ended (merging would forget what it stands for)
+                    ck = []
+                    for dn in cond_vars:
+                        try:
+                            ls = self.lv(dn, s, fr)
+                        except Exception:
+                            ls = []
+                        v_ = s.mem.get(ls[0][1]) if len(ls) == 1 and ls[0][1] is not None and ls[0][0] is s else None
+                        ck.append(v_ if v_ is not None and v_[0] == 'c' else None)
+                    g = (g, tuple(ck))
+                    if all(c_ is not None for c_ in ck):
+                        # the flags are constants here: if they already decide that the loop is left, this state simply leaves
+                        # (summarising it with others that leave would only blur what each of them knows)
+                        f0_ = self.stats['forks']
+                        outs_ = self.cond(cond, s.copy(), fr)
+                        self.stats['forks'] = f0_
+                        if outs_ and all(not b_ for _, b_ in outs_):
+                            for s_out, _ in outs_:
+                                self.emit('loopcond', s_out, node=n, taken=False, fr=fr)
+                                o.norm.append(s_out)
+                            continue
                 cur = summaries.get(g)
                 if cur is not None and self.subsumes(cur[0], s):
                     continue
+                loopgroup[id(s)] = g
                 if cur is None:
                     summaries[g] = (s.copy(), 0)
                     pending.append(s)
@@ -2281,8 +2366,10 @@ class Interp:
                     w = self.widen_pair(cur[0], s, cur[1], n)
                     summaries[g] = (w, cur[1] + 1)
                     # drop pending states of this group: the summary covers them
-                    pending = [p for p in pending if frozenset(p.comps.items()) != g]
-                    pending.append(w.copy())
+                    pending = [p for p in pending if loopgroup.get(id(p)) != g]
+                    wc_ = w.copy()
+                    loopgroup[id(wc_)] = g
+                    pending.append(wc_)
         if abstract:
             self.stats['loops_abstract'] += 1
         else:
